@@ -27,10 +27,23 @@ def main() -> int:
             return machinery_failure(a.pid, "no engine registered for this property")
         return mod.run(a.pid, a.tier, a.replay)
     except tla.MachineryError as e:
-        return machinery_failure(a.pid, str(e))
+        return _after_failure(a.pid, str(e))
     except Exception:  # noqa: BLE001
         traceback.print_exc()
-        return machinery_failure(a.pid, "unexpected exception in the harness")
+        return _after_failure(a.pid, "unexpected exception in the harness")
+
+
+def _after_failure(pid: str, msg: str) -> int:
+    """A later stage of the machinery failed.  Failing inputs already shown against the real code stand on their own:
+    report them (exit 1); without any, the run is no verdict (exit 2)."""
+    from .engine import Report, machinery_failure
+    rep = Report.current
+    if rep is not None and rep.pid == pid and rep._viol:
+        print(f"[{pid}] a later stage failed ({msg.splitlines()[0][:200]}); reporting what was found before it", file=sys.stderr)
+        rep.notes.append("run incomplete: " + msg.splitlines()[0][:300])
+        rc = rep.finish()
+        return rc if rc == 1 else machinery_failure(pid, msg)
+    return machinery_failure(pid, msg)
 
 
 def _engine_for(pid: str):
